@@ -9,11 +9,11 @@ import (
 // (It does not use fxamacker, so the encodings it produces are a second opinion.)
 
 type cnode struct {
-	mt   int       // major type 0..7
-	n    uint64    // argument (uint/nint value, tag number, simple value)
-	b    []byte    // bstr / tstr content
-	kids []*cnode  // arr elements, map k,v,k,v…, tag content
-	raw  []byte    // if set, emitted verbatim (floats, injected garbage)
+	mt   int      // major type 0..7
+	n    uint64   // argument (uint/nint value, tag number, simple value)
+	b    []byte   // bstr / tstr content
+	kids []*cnode // arr elements, map k,v,k,v…, tag content
+	raw  []byte   // if set, emitted verbatim (floats, injected garbage)
 }
 
 type emitOpts struct {
@@ -111,7 +111,9 @@ func (c *cnode) emit(out []byte, r *rand.Rand, o *emitOpts) []byte {
 	}
 }
 
-var boundaryUints = []uint64{0, 1, 10, 23, 24, 25, 100, 255, 256, 257, 1000, 65535, 65536, 65537, 1 << 31, 1<<31 - 1, 1<<32 - 1, 1 << 32, 1<<32 + 1, 1<<63 - 1, 1 << 63, 1<<64 - 1}
+var boundaryUints = []uint64{0, 1, 10, 23, 24, 25, 100, 255, 256, 257, 1000, 65535, 65536, 65537, 1 << 31, 1<<31 - 1, 1<<32 - 1, 1 << 32, 1<<32 + 1, 1<<63 - 1, 1 << 63, 1<<64 - 1,
+	// values that become small (or in-range) numbers after a 64-bit wrap: 2^64-k
+	1<<64 - 2, 1<<64 - 7, 1<<64 - 8, 1<<64 - 25, 1<<64 - 36, 1<<64 - (1 << 31), 1<<64 - (1 << 31) - 1, 1<<64 - (1 << 31) + 1, 1<<63 + 5, 1<<32 + 5, 1<<32 - 7}
 
 func genUint(r *rand.Rand) uint64 {
 	switch r.Intn(3) {
